@@ -537,9 +537,20 @@ pub fn replay(v: &Value) -> Option<(String, String)> {
             }
         }
         "c16_conservation" => {
-            let run = Run::from_json(r).ok()?;
+            let mut run = Run::from_json(r).ok()?;
             let n = r["n"].as_u64().unwrap_or(0);
             let nworkers = r["nworkers"].as_u64().unwrap_or(run.specs.len() as u64) as usize;
+            // the scopes are recomputed by the current calculate_scopes(n): the replay
+            // re-executes the recorded schedule on today's splitter, not on stored cuts
+            if let Ok(cur) = scopes_for(n as u32) {
+                if cur.len() == nworkers {
+                    let old: Vec<TaskSpec> = run.specs.clone();
+                    for i in 0..run.specs.len() {
+                        let j = if i < nworkers { i } else { (0..nworkers).find(|j| old[*j].scope == old[i].scope).unwrap_or(0) };
+                        run.specs[i].scope = Some(cur[j]);
+                    }
+                }
+            }
             check_conservation(&run, nworkers)
                 .key
                 .map(|(k, d)| (format!("{k}:n={n}"), d))
